@@ -215,6 +215,10 @@ class Resolve:
                 if sim._tree_root:
                     sim.update_tree()
                 M1, P1, X1, K1, h1 = self.totals(sim)
+                bad = [(p.hash.value, c) for p in sim.particles for c in ("x", "z", "vx", "vy", "vz", "m", "r") if getattr(p, c) != getattr(p, c)]
+                if bad:
+                    V.append(("resolve:nan:%s" % resolver, "particle %d has %s = NaN after step %d, processing seed %d [%s]" % (bad[0][0], bad[0][1], st, seed, tag)))
+                    break
                 scaleP = sum(abs(b[0]) * (abs(b[4]) + abs(b[5]) + abs(b[6])) for b in bodies) + 1e-300
                 if not (abs(M1 - M0) <= 1e-13 * M0):
                     V.append(("resolve:mass:%s" % resolver, "total mass %r -> %r in step %d, processing seed %d [%s]" % (M0, M1, st, seed, tag)))
@@ -260,7 +264,8 @@ class Shear:
         self.rebound = rebound
 
     def __call__(self, task):
-        mode, yoff, vyrel, t0 = task
+        mode, yoff, vyrel, t0 = task[:4]
+        y0 = task[4] if len(task) > 4 else 0.3        # azimuthal position of particle 0 (near +-L/2: the partner is an image in y as well)
         rb.quiet()
         rebound = self.rebound
         L = 8.0
@@ -275,24 +280,33 @@ class Shear:
         sim.collision = mode
         sim.collision_resolve = "hardsphere"
         sim.dt = 1e-3
-        sim.t = t0
+        if t0 is not None:
+            sim.t = t0
         # image of particle 1 across the +x face moves with vy = -1.5*OM*L relative to the box
         vimg = -1.5 * OM * L
-        yshift = math.fmod(vimg * (t0 + sim.dt), L)
-        sim.add(m=1.0, x=L / 2 - 0.2, y=0.3, z=0.0, vx=0.05, vy=0.0, vz=0.0, r=0.3, hash=1)
-        # place particle 1 so that its image (x+L, y+yshift(+-L)) sits at dx=0.4, dy=yoff from particle 0
-        y1 = 0.3 + yoff - yshift
-        while y1 > L / 2:
-            y1 -= L
-        while y1 < -L / 2:
-            y1 += L
+        if len(task) > 5:
+            # both azimuthal positions are given (each possibly at an edge of the box): the time is chosen such that the image of
+            # particle 1 stands at dy=yoff from particle 0 at the end of the step, m box lengths of shear later
+            y1, m = task[5]
+            t_end = (m * L - (y0 + yoff - y1)) / (-vimg)
+            t0 = t_end - sim.dt
+            sim.t = t0
+        else:
+            yshift = math.fmod(vimg * (t0 + sim.dt), L)
+            # place particle 1 so that its image (x+L, y+yshift(+-L)) sits at dx=0.4, dy=yoff from particle 0
+            y1 = y0 + yoff - yshift
+            while y1 > L / 2:
+                y1 -= L
+            while y1 < -L / 2:
+                y1 += L
+        sim.add(m=1.0, x=L / 2 - 0.2, y=y0, z=0.0, vx=0.05, vy=0.0, vz=0.0, r=0.3, hash=1)
         sim.add(m=2.0, x=-L / 2 + 0.2, y=y1, z=0.01, vx=-0.05, vy=vyrel - vimg, vz=0.0, r=0.3, hash=2)
         P0 = [sum(p.m * getattr(p, a) for p in sim.particles) for a in ("vx", "vy", "vz")]
         n0 = sim.collisions_log_n
         sim.step()
         P1 = [sum(p.m * getattr(p, a) for p in sim.particles) for a in ("vx", "vy", "vz")]
         V = []
-        tag = "shear/%s yoff=%g vyrel=%g t0=%g" % (mode, yoff, vyrel, t0)
+        tag = "shear/%s yoff=%g vyrel=%g t0=%.17g y0=%g y1=%.17g" % (mode, yoff, vyrel, t0, y0, y1)
         if not (nanmax(abs(a - b) for a, b in zip(P0, P1)) <= 1e-12 * 30):
             V.append(("resolve:momentum:hardsphere-shear", "total momentum %s -> %s in a bounce against a sheared image [%s]" % (P0, P1, tag)))
         a, b = sim.particles[0], sim.particles[1]
@@ -314,6 +328,69 @@ class Shear:
         if speed > 10 * (abs(vimg) + abs(vyrel) + 1):
             V.append(("resolve:runaway:hardsphere-shear", "speeds up to %.3g after a bounce against a sheared image [%s]" % (speed, tag)))
         return V
+
+
+class HybridCluster:
+    """several touching pairs around a star under the hybrid integrators (which force order-preserving removal) and under IAS15,
+    built-in merge resolver, for a list of processing orders: exactly the touching pairs merge, nobody else is touched"""
+    def __init__(self, rebound):
+        self.rebound = rebound
+
+    def __call__(self, task):
+        integ, npairs, keep_sorted, seed, order = task
+        rb.quiet()
+        rebound = self.rebound
+        sim = rebound.Simulation()
+        sim.integrator = integ
+        sim.collision = "direct"
+        sim.collision_resolve = "merge"
+        sim.collision_resolve_keep_sorted = keep_sorted
+        sim.dt = 0.02
+        sim.rand_seed = seed
+        m, rad = 1e-5, 1e-3
+        sim.add(m=1.0, r=1e-3, hash=1)
+        specs = []
+        # pairs (touching, approaching) at a = 1, 2, 3 on different sides of the star; single planets in between
+        for k in range(npairs):
+            a, phi = 1.0 + k, 3.0 * k
+            specs.append((10 + 2 * k, a, phi, 0.0, 0.0))
+            specs.append((11 + 2 * k, a, phi, 1.5e-3, -0.02))
+            specs.append((50 + k, a + 0.5, phi + 2.0, 0.0, 0.0))
+        specs = [specs[i] for i in order] if order else specs
+        for h, a, phi, dr, dvr in specs:
+            v = math.sqrt(1.0 / a)
+            d = a + dr
+            sim.add(m=m, r=rad, hash=h, x=d * math.cos(phi), y=d * math.sin(phi), vx=-v * math.sin(phi) + dvr * math.cos(phi), vy=v * math.cos(phi) + dvr * math.sin(phi))
+        M0 = sum(p.m for p in sim.particles)
+        P0 = [sum(p.m * getattr(p, c) for p in sim.particles) for c in ("vx", "vy", "vz")]
+        V = []
+        tag = "%s, %d touching pairs, keep_sorted=%d, rand_seed=%d, insertion order %s" % (integ, npairs, keep_sorted, seed, order or "as listed")
+        try:
+            sim.step()
+            sim.synchronize()
+        except Exception as e:     # noqa
+            return [("hybrid-cluster:step-raised:%s" % integ, "step raised %r [%s]" % (e, tag))]
+        left = sorted(p.hash.value for p in sim.particles)
+        masses = {p.hash.value: p.m for p in sim.particles}
+        for k in range(npairs):
+            if (50 + k) not in left:
+                V.append(("hybrid-cluster:bystander-lost:%s" % integ, "planet %d touched nothing but is gone after the step (left: %s) [%s]" % (50 + k, left, tag)))
+            elif masses[50 + k] != m:
+                V.append(("hybrid-cluster:bystander-merged:%s" % integ, "planet %d touched nothing but has mass %r afterwards [%s]" % (50 + k, masses[50 + k], tag)))
+            pair = [h for h in (10 + 2 * k, 11 + 2 * k) if h in left]
+            if len(pair) != 1:
+                V.append(("hybrid-cluster:pair-not-merged:%s" % integ, "touching pair (%d,%d): %d of them left after the step (left: %s) [%s]" % (10 + 2 * k, 11 + 2 * k, len(pair), left, tag)))
+            elif not (abs(masses[pair[0]] - 2 * m) <= 1e-18):
+                V.append(("hybrid-cluster:pair-mass:%s" % integ, "survivor of pair (%d,%d) has mass %r, expected %r [%s]" % (10 + 2 * k, 11 + 2 * k, masses[pair[0]], 2 * m, tag)))
+        if 1 not in left or len(left) != len(set(left)):
+            V.append(("hybrid-cluster:identity:%s" % integ, "hashes after the step: %s [%s]" % (left, tag)))
+        M1 = sum(p.m for p in sim.particles)
+        P1 = [sum(p.m * getattr(p, c) for p in sim.particles) for c in ("vx", "vy", "vz")]
+        if not (abs(M1 - M0) <= 1e-13 * M0):
+            V.append(("hybrid-cluster:mass:%s" % integ, "total mass %r -> %r [%s]" % (M0, M1, tag)))
+        if not (nanmax(abs(a - b) for a, b in zip(P0, P1)) <= 1e-11 * m):
+            V.append(("hybrid-cluster:momentum:%s" % integ, "total momentum %s -> %s [%s]" % (P0, P1, tag)))
+        return V[:3]
 
 
 # ------------------------------------------------------------------------------------------ spaces
@@ -383,6 +460,8 @@ CLUSTERS = {
     "two-pairs": [[1.0, -2.2, 0, 0, 0.5, 0, 0, 0.3], [2.0, -1.8, 0.01, 0, -0.5, 0, 0, 0.3], [1.5, 1.8, 0, 0, 0.5, 0, 0, 0.3], [0.5, 2.2, 0.02, 0, -0.5, 0, 0, 0.3]],
     "cross-pairs": [[1.0, -0.2, 2, 0, 0.5, 0, 0, 0.3], [2.0, -0.2, -2, 0.01, 0.5, 0, 0, 0.3], [1.5, 0.2, -2, 0, -0.5, 0, 0, 0.3], [0.5, 0.2, 2, 0.02, -0.5, 0, 0, 0.3]],
     "chain4": [[1.0, -0.75, 0, 0, 0.5, 0, 0, 0.3], [2.0, -0.25, 0.01, 0, 0.1, 0, 0, 0.3], [1.5, 0.25, -0.01, 0, -0.1, 0, 0, 0.3], [0.7, 0.75, 0, 0, -0.5, 0, 0, 0.3]],
+    "massless-pair": [[0.0, -0.2, 0, 0, 0.5, 0, 0, 0.3], [0.0, 0.2, 0.01, 0, -0.5, 0, 0, 0.3], [1.0, 5.0, 5.0, 0, 0.1, 0, 0, 0.1]],
+    "massless-on-massive": [[0.0, -0.2, 0, 0, 0.5, 0, 0, 0.3], [2.0, 0.2, 0.01, 0, -0.5, 0, 0, 0.3], [0.0, 0.25, 0.4, 0, -0.1, -0.5, 0, 0.2]],
     "grow": [[1.0, -0.3, 0, 0, 0.5, 0, 0, 0.4], [1.0, 0.3, 0.01, 0, -0.5, 0, 0, 0.4], [1.0, 0.0, 0.93, 0, 0.0, -0.3, 0, 0.1], [1e-3, 3.0, 3.0, 0, 0, 0, 0, 0.01], [1e-3, 3.02, 3.0, 0, 0, 0, 0, 0.01]],
 }
 
@@ -440,6 +519,11 @@ def run(ctx):
         for sig, what in V:
             ctx.violation(sig, what, case)
     st = [(mode, yoff, vyrel, t0) for mode in ("direct", "tree") for yoff in (-0.3, -0.1, 0.1, 0.3) for vyrel in (-0.5, 0.0, 0.5) for t0 in (0.0, 0.013, 0.37)]
+    # the whole cycle of the shear offset (it advances by 1.5 box lengths per time unit) x azimuthal positions incl. both edges of the box
+    st += [(mode, yoff, vyrel, k / 24.0 + 0.001, y0) for mode in ("direct", "tree") for yoff in (-0.3, 0.1) for vyrel in (-0.5, 0.5) for k in range(0, 49) for y0 in (0.3, 3.85, -3.85)]
+    # both particles at chosen azimuthal positions (every combination of centre / near an edge / at an edge), 1..3 box lengths of shear
+    YS = (0.3, 3.7, -3.7, 3.95, -3.95)
+    st += [(mode, yoff, vyrel, None, y0, (y1, m)) for mode in ("direct", "tree") for yoff in (-0.3, 0.1, 0.3) for vyrel in (-0.5, 0.5) for y0 in YS for y1 in YS for m in (2, 3, 4)]
     sres = pool.run_tasks(Shear(rebound), st, timeout=30)
     for t, r in zip(st, sres):
         if r[0] != "ok":
@@ -447,8 +531,28 @@ def run(ctx):
             continue
         for sig, what in r[1]:
             ctx.violation(sig, what, {"kind": "shear", "task": list(t)})
+    # several mergers in one step under the hybrid integrators
+    ht = []
+    for integ in ("mercurius", "trace", "ias15"):
+        for npairs in (2, 3):
+            n = 3 * npairs
+            orders_ = [None, list(range(n - 1, -1, -1)), [i for i in range(n) if i % 3 != 2] + [i for i in range(n) if i % 3 == 2]]
+            for order in orders_:
+                for ks in (0, 1):
+                    for seed in range(1, 13 if ctx.tier == "quick" else 41):
+                        ht.append((integ, npairs, ks, seed, order))
+    hres = pool.run_tasks(HybridCluster(rebound), ht, timeout=120, chunk=4)
+    for t, r in zip(ht, hres):
+        case = {"kind": "hybrid", "task": list(t)}
+        if r[0] != "ok":
+            frag = common.classify_crash(r[1])[0] if r[0] == "crash" else r[0]
+            ctx.violation("hybrid-cluster-%s:%s:%s" % (r[0], t[0], frag), "%s in hybrid cluster case %s: %s" % (r[0], t, str(r[1])[-500:]), case)
+            continue
+        for sig, what in r[1]:
+            ctx.violation(sig, what, case)
     cov = {
-        "states": len(dt) + orders + len(st), "transitions": len(dt) + 3 * orders, "traces_validated_against_impl": len(dt) + orders,
+        "hybrid_cluster_runs": len(ht),
+        "states": len(dt) + orders + len(st) + len(ht), "transitions": len(dt) + 3 * orders, "traces_validated_against_impl": len(dt) + orders,
         "samples": [{"detect_case": list(dt[0])}, {"resolve_case": list(rt[0][:4]), "bodies": rt[0][4]}],
         "detection_cases": len(dt), "detection_cases_with_a_qualifying_pair": nontrivial, "resolution_cases": len(rt), "processing_orders_executed": orders,
         "order_enumeration_capped_for": sorted(set(capped)), "order_cap": cap,
@@ -466,6 +570,11 @@ def run(ctx):
 def replay(ctx, case):
     rebound = ctx.use("asan")
     t = case["task"]
+    if case["kind"] == "hybrid":
+        V = HybridCluster(rebound)(tuple(case["task"]))
+        for v in V:
+            print(v)
+        return 1 if V else 0
     if case["kind"] == "shear":
         V = Shear(rebound)(tuple(t))
     elif case["kind"] == "detect":
